@@ -98,6 +98,8 @@ add("dstu_B1_sign", dstu_ctx(ds) + " sig == %s parts == DstuSigParts(sig, 512, n
 add("dstu_B1_verify", dstu_ctx(ds) + " sig == %s parts == DstuSigParts(sig, 512, n) IN DstuVerifyEq(C, P, n, DstuH(%s, 163), parts[1], parts[2], %s)" % (hexrev(dsig), hexrev(dh), Qd))
 add("dstu_B1_compress", dstu_ctx(ds) + " Q == %s xp == DstuCompress(C, Q[1], Q[2]) IN DstuRoundTripDomain(C, Q[1], Q[2]) /\\ DstuRecoverOk(C, xp, Q[1], Q[2]) /\\ ~DstuRecoverOk(C, xp, Q[1], PNorm(PAdd(Q[1], Q[2]))) /\\ DstuRecoverOk(C, PNorm(PAdd(xp, POne)), Q[1], PNorm(PAdd(Q[1], Q[2])))" % Qd)
 # complete small field: trace is additive, tr(x^2) = tr(x), half of the elements have trace 0; z^2 + z has trace 0
+add("trace_newton_163", dstu_ctx(ds) + " IN \\A k \\in {0, 1, 2, 80, 162} : GTr(PMonomial(k), C.F) = GTrDef(PMonomial(k), C.F) /\\ GTr(P[1], C.F) = GTrDef(P[1], C.F) /\\ GTr(P[2], C.F) = GTrDef(P[2], C.F)")
+add("trace_newton_small", "\\A f \\in {<<7, 1, 0, 0>>, <<9, 4, 0, 0>>, <<8, 4, 3, 1>>, <<13, 4, 3, 1>>} : LET F == DstuField(f) IN \\A x \\in 0..(2 ^ f[1] - 1) : (f[1] > 9 /\\ x % 17 # 3) \\/ (GTr(<<x>>, F) = GTrDef(<<x>>, F))")
 add("gf2_7_trace", "LET F == DstuField(<<7, 1, 0, 0>>) IN Cardinality({x \\in 0..127 : GTr(<<x>>, F) = 0}) = 64 /\\ \\A x \\in 0..127 : GTr(GSqr(<<x>>, F), F) = GTr(<<x>>, F) /\\ GTr(PAdd(GSqr(<<x>>, F), <<x>>), F) = 0")
 # a complete tiny binary curve: the group law closes and every point has order dividing the group order
 add("e2_tiny_group", "LET C == [F |-> DstuField(<<5, 2, 0, 0>>), A |-> 1, B |-> <<1>>] pts == {xy \\in (0..31) \\X (0..31) : E2OnCurve(C, PNorm(<<xy[1]>>), PNorm(<<xy[2]>>))} N == Cardinality(pts) + 1 IN N >= 22 /\\ N <= 44 /\\ \\A xy \\in pts : LET P == <<PNorm(<<xy[1]>>), PNorm(<<xy[2]>>)>> IN E2IsO(E2Mul(C, OfInt(N), P)) /\\ LET D == E2Dbl(C, P) IN E2IsO(D) \\/ E2OnCurve(C, D[1], D[2])")
@@ -124,7 +126,7 @@ out = ["--------------------------- MODULE SchemeVectors -----------------------
        "(* GENERATED by tools/gen_scheme_vectors.py.  Anchors of ref/Schemes.tla evaluated by TLC (one vector per state):",
        "   appendix examples of GOST R 34.10-2012 (A.1, A.2), DSTU 4145-2002 (B.1), the bign96 and pfok reference vectors, tape and",
        "   hash-reduction facts, group laws on complete tiny structures.  A failing vector means the SPECIFICATION is wrong. *)",
-       "EXTENDS Schemes, FiniteSets, TLC, IOUtils", ""]
+       "EXTENDS Schemes, TLC, IOUtils", ""]
 for n, e in V:
     out.append("V_%s(dummy) == %s" % (n, e))
 HEAVY = ["g12s_A1_negated_hash", "g12s_A1_pubkey", "g12s_A1_verify", "g12s_A1_altered", "bign96_verify_det", "bign96_altered", "dstu_B1_order", "dstu_B1_verify",
